@@ -30,8 +30,9 @@ CHECKS['C17'] = dict(
         'and a case-insensitive (wildcard-aware) match of the domain, n unique, None exactly when no split matches; and the server dispatcher '
         '(Server.tunnel_dns) treats a query as tunnel traffic exactly when query_datalen is Some n (n = 0 included: NS answered, tunnel types to the '
         'handler), forwards it exactly when it is None and forwarding is configured, never both. Limits are re-read from the source; tied to common.c by '
-        'exhaustive small-string and random long-name correspondence plus an independent reference matcher, and to tunnel_dns of iodined.c by targeted '
-        'server histories (model per event + oracle from the property text).',
+        'exhaustive small-string and random long-name correspondence plus an independent reference matcher, to tunnel_dns of iodined.c by targeted '
+        'server histories (model per event + oracle from the property text), and to the two call sites ("wildcard: server only", theorems '
+        'C17_client_never_wildcard / C17_server_only_wildcard) by running the real main() of iodine.c and iodined.c on scripted command lines.',
    note='Trusts: C-locale tolower/isdigit (no setlocale in the source); at data length 0 a tunnel-type query is handled but produces no output, '
         'so the observable there is the NS answer and forwarding; Coq kernel; translator; extraction; gcc.',
    technique='Coq proof (induction on reversed strings / label lists), differential correspondence, independent reference matcher',
@@ -52,7 +53,8 @@ CHECKS['C18'] = dict(
         'find_user_by_ip returns exactly the least live/authenticated/enabled owner, unique for pool addresses; allocation takes exactly '
         'the first free-or-expired slot. USERS/60/3 and the 8..30 range check are re-read from the source.',
    note='Trusts: little-endian x86-64 representation of in_addr_t, inet_addr("0.0.0.k") = k<<24 (k <= 17), calloc zeroing; the netmask range '
-        'check sits in main() and is tied by the translator only; Coq kernel; extraction; gcc.',
+        'check sits in main() of iodined.c and is tied by running that real main() on command lines a.b.c.d/N for every N (startup stage); '
+        'Coq kernel; translator; extraction; gcc.',
    technique='Coq proof (arithmetic characterisation of byte swap/masks, induction over the assignment loop), differential correspondence exhaustive for /16../30 at thorough tier',
    design='4/C18')
 CHECKS['C19'] = dict(
@@ -62,7 +64,8 @@ CHECKS['C19'] = dict(
         'in the challenge; raw login uses s+1 / s-1 with explicit wrap and the server/client accept exactly those; the glue that carries the challenge '
         'from the server\'s version reply (big-endian bytes 4..7) through the client\'s reassembly expression (re-read from the source term by term: index, '
         'mask, cast, shift; checked for all 256 patterns per byte incl. C99 shift definedness) into both logins is the identity for every int, so the login the '
-        'client sends is the one the server computes. RFC test vectors by computation. Tied to login.c, md5.c and the real handshake_version / handshake_login / '
+        'client sends is the one the server computes; a session\'s challenge changes only when a version handshake claims the slot, so the raw login '
+        'is checked against the challenge of the version reply. RFC test vectors by computation. Tied to login.c, md5.c and the real handshake_version / handshake_login / '
         'send_raw_udp_login / version and login handlers by correspondence with hashlib as third oracle, also under ASan/UBSan.',
    note='Trusts: MD5 model tied to md5.c by correspondence and to the RFC by its 7 test vectors (no collision-resistance claim); signed '
         'overflow of seed+1/seed-1 at INT_MAX/INT_MIN wraps (gcc); Coq kernel; translator; extraction; gcc.',
@@ -74,9 +77,10 @@ CHECKS['C08'] = dict(
         'chars ending in the domain (labels 1..63, wire <= 255), carries a non-empty payload prefix of exactly the reported length, the query '
         'datagram decodes on the server to the same name/type/id, the label-boundary matcher (plain, other-case or wildcard server domain) '
         'finds the data part and unpack_data returns exactly that prefix. inline_dotify (in-place backward loop) proved equal to the forward '
-        'spec. Built on the C07 and C17 theorems. Tied to encoding.c/client.c/read.c/dns.c by correspondence over all (L, codec) and domain lengths.',
-   note='Trusts: the server-side offsets (in+5 / in+1) are exercised on the real handle_null_request by the server-history and whole-system '
-        'correspondence runs (C01, C03..C16), not by this check; -M below |d|+8 underflows in the C and is outside the property; Coq kernel; translator; extraction; gcc.',
+        'spec; the server dispatcher hands exactly that data length to the handlers (C08_dispatcher_hands_on_data_part). Built on the C07 and C17 theorems. '
+        'Tied to encoding.c/client.c/read.c/dns.c by correspondence over all (L, codec) and domain lengths, and to tunnel_dns/handle_null_request of iodined.c by '
+        'scripted sessions (first label 1..63 chars x same/other-case/wildcard server domain x 4 codecs) whose upstream packets must reach the tun device byte for byte.',
+   note='Trusts: the scripted sessions of the extraction stage use single-fragment packets and the framing stand-in for zlib; -M below |d|+8 underflows in the C and is outside the property; Coq kernel; translator; extraction; gcc.',
    technique='Coq proof (dotify loop invariant, putname/readname round trip, composition with codec and matcher theorems), differential correspondence',
    design='4/C08')
 CHECKS['C01'] = dict(
@@ -89,7 +93,9 @@ CHECKS['C01'] = dict(
         'statement is not proved. Tie: abstract rules proved equal to the decision expressions of Server.v/Client.v, and the real handlers (handle_data via its '
         'staged form, tunnel_dns via its staged form) proved to update their reassembly state exactly as the rules prescribe and to deliver exactly on "accepted and last flag"; the composed model '
         '(Tunnel.v = Client.v + Server.v + network) is run against the two real programs on random fault schedules over all configurations, '
-        'and an implementation-level oracle (real zlib) checks every tun write against the packets offered at the peer.',
+        'and an implementation-level oracle (real zlib) checks every tun write against the packets offered at the peer. Client-to-client forwarding: the server\'s ring of '
+        'pending downstream packets is proved to refine a bounded FIFO of byte strings and a packet forwarded to a busy session to enter its ring as the sender\'s stream '
+        '(QueueProofs.v); 2-3 scripted sessions on the real server (checks/fwdlib.py) check every stream a recipient reassembles against the frames offered to it.',
    note='Trusts: the rest of the abstraction from Server.v/Client.v to ProtoUp.v/ProtoDown.v (ghost packet numbers, the message bag and the chunk '
         'construction of client send_chunk are by inspection; the reassembly steps and both ack rules are proved); zlib as an oracle (unz (zc p) = Some p); one client session; Coq kernel; translator; extraction; gcc.',
    technique='Coq proof (inductive invariant over an adversarial-network transition system, both directions) + refutation witness outside the hypothesis; whole-system differential correspondence and integrity oracle',
